@@ -1202,7 +1202,7 @@ example : s1.n.udpRoute ep5000 { addr := "10.0.0.1", port := 7 } = none :=
 /-- row "wildcard": 0.0.0.0 resolves to the FIRST v4 address of the node -/
 example : ioResolve ["10.0.0.1", "10.0.0.2"] { addr := "0.0.0.0", port := 6000 } = .ok { addr := "10.0.0.1", port := 6000 } := by
   rw [(C11_error_table_resolve _ _).1 rfl]
-  have : addrIsV4 "10.0.0.1" = true := by unfold addrIsV4; rw [String.contains_char_eq]; decide
+  have : addrIsV4 "10.0.0.1" = true := by decide
   simp [List.find?, this]
 
 /-! an accepted socket: `a0` binds 10.0.0.1:5000 and listens, `s5` is attached to a connection
